@@ -29,7 +29,7 @@ MCNext ==
   \/ /\ Len(hist) >= 1 /\ Len(hist) <= MaxOps /\ Len(convs) = 1
      /\ \E r \in ArgPool, cs \in BOOLEAN, mg \in BOOLEAN : AAdd(1, r, cs, mg, "record")
 MCSpec == Init /\ [][MCNext]_vars
-MCView == <<convs, last, sigs>>
+MCView == <<convs, last, IF sigs = <<>> THEN <<>> ELSE sigs[Len(sigs)]>>     \* only the LAST signature: histories must not multiply states
 
 Inv_C05 == \A c \in Live : P_C05_inv(c)
 Inv_C01 == \A c \in Live : LET A(m, md, x) == SpecA(c, m, md, x) IN \A s \in Probes : P_C01(c, s, A)
